@@ -265,7 +265,8 @@ def main():
     disagreements = []
     if not a.no_native and not a.replay:
         cands = [(sc, res) for sc, res in zip(scenarios, results)
-                 if res["status"] == "ok" and res.get("witness") and not any(o["verdict"] != "holds" for o in res["obligations"])]
+                 if res["status"] == "ok" and res.get("witness") and sc.get("native", True)
+                 and not any(o["verdict"] != "holds" for o in res["obligations"])]
         lim = int(os.environ.get("VERIF_NATIVE_MAX", "6" if a.tier == "quick" else "16"))
         for sc, res in cands[:lim]:
             rp = os.path.join(VERIF, "replays", "tmp-%s-%s.json" % (prop, res["entry"]))
